@@ -81,6 +81,10 @@ pub enum Error<'a> {
 
     /// Input contains an invalid character (like a non-ASCII character)
     InvalidCharacter { char: Str<'a> },
+
+    /// A number is too large: an integer that does not fit in 32 bits,
+    /// or a dimension bigger than TeX's maximum dimension.
+    NumberTooLarge { number: Str<'a> },
 }
 
 impl<'a> Error<'a> {
@@ -118,6 +122,7 @@ impl<'a> Error<'a> {
             MultipleDecimalPoints { .. } => "A number has multiple decimal points".into(),
             NumberWithoutUnits { .. } => "No units were provided for this number".into(),
             InvalidCharacter { .. } => "Invalid character in the input".into(),
+            NumberTooLarge { .. } => "Number is too large".into(),
         }
     }
     pub fn labels(&self) -> Vec<ErrorLabel> {
@@ -279,6 +284,12 @@ MultipleDecimalPoints { point } => vec![
     },
 
             ],
+            NumberTooLarge { number } => vec![
+                ErrorLabel {
+                    span: number.span(),
+                    text: "integers must fit in 32 bits and dimensions must be less than 16384pt".into(),
+                },
+            ],
         }
     }
     pub fn notes(&self) -> Vec<String> {
@@ -311,7 +322,8 @@ MultipleDecimalPoints { point } => vec![
             | InvalidDimensionUnit { .. }
             | MultipleDecimalPoints { .. }
             | NumberWithoutUnits { .. }
-            | InvalidCharacter { .. } => vec![],
+            | InvalidCharacter { .. }
+            | NumberTooLarge { .. } => vec![],
         }
     }
 }
@@ -492,5 +504,12 @@ mod tests {
         (number_no_unit, "glue(width=1.1)", NumberWithoutUnits,),
         (random_character, "/", InvalidCharacter,),
         (non_ascii_character, "ä", InvalidCharacter,),
+        (integer_too_large, "penalty(99999999999)", NumberTooLarge,),
+        (dimension_too_large, "kern(16384pt)", NumberTooLarge,),
+        (
+            infinite_glue_too_large,
+            "glue(0pt, 40000fil)",
+            NumberTooLarge,
+        ),
     );
 }
